@@ -205,7 +205,11 @@ def compare(m, m2, spec, fmt, pd, cd, out):
     if type(m2) is not type(m):
         bad.append(("class-changed", {"saved": type(m).__name__, "loaded": type(m2).__name__}))
     p1, p2 = np.asarray(m.p), np.asarray(m2.p)
-    if p1.shape != p2.shape or not np.array_equal(p1, p2):
+    # text formats print a bounded number of digits: coordinates that need more digits come back
+    # rounded in the last places, which is not a change of the mesh in the sense of the property
+    same = p1.shape == p2.shape and (np.array_equal(p1, p2) or (
+        "ascii" in str(fmt) and np.allclose(p1, p2, rtol=1e-10, atol=1e-12)))
+    if not same:
         bad.append(("points-changed", {"saved_shape": list(p1.shape), "loaded_shape": list(p2.shape)}))
     t1, t2 = np.asarray(m.t), np.asarray(m2.t)
     if t1.shape != t2.shape or not np.array_equal(t1, t2):
